@@ -429,6 +429,50 @@ fn c18_cli(ctx: &mut Ctx, rng: &mut Rng, abs: &Abs, family: &str) {
     }
 }
 
+/// Termination at the process boundary on inputs whose encoding-size arithmetic is extreme
+/// (defender-set products beyond 2^64).  No bound can be computed by brute force at this size, so
+/// the only observation is that the plain release binary answers; a watchdog that fires is
+/// *inconclusive* (runtime monitoring cannot decide non-termination) and makes the run exit 2.
+fn c18_cli_termination(ctx: &mut Ctx, rng: &mut Rng) {
+    use crate::props::cli::run as run_bin;
+    let g = gen::heavy_fan_in(rng);
+    let dir = ctx.out_dir.join(format!("c18-cli-{}", ctx.shard));
+    let _ = std::fs::create_dir_all(&dir);
+    let file = dir.join("fan-in.af");
+    let mut text = format!("p af {}\n", g.n);
+    for (a, b) in g.att.iter() {
+        text.push_str(&format!("{} {}\n", a + 1, b + 1));
+    }
+    if std::fs::write(&file, &text).is_err() {
+        return;
+    }
+    let bin = ctx.repo_bin_dir.join("crustabri");
+    for (prob, enc) in [("DC-CO", Some("hybrid")), ("DS-PR", Some("hybrid")), ("SE-PR", None), ("DC-SST", Some("hybrid")), ("SE-ID", Some("hybrid")), ("DC-STG", None)] {
+        let a = 1 + rng.below(g.n);
+        let mut args: Vec<String> = vec!["solve".into(), "-f".into(), file.to_string_lossy().to_string(), "-p".into(), prob.into(), "--logging-level".into(), "info".into()];
+        if !prob.starts_with("SE") {
+            args.push("-a".into());
+            args.push(a.to_string());
+        }
+        if let Some(e) = enc {
+            args.push("--encoding".into());
+            args.push(e.into());
+        }
+        ctx.eval();
+        match run_bin(&bin, &args) {
+            Some(o) if o.code == Some(0) => {
+                ctx.count("cli_extreme_fan_in_runs_terminated");
+                ctx.maximum("cli_extreme_fan_in_sat_calls", o.stdout.matches("launching SAT solver").count() as u64);
+            }
+            Some(_) => ctx.inconclusive("cli-run-non-zero-exit"),
+            None => {
+                ctx.inconclusive("cli-run-failed-or-timed-out");
+                eprintln!("watchdog: crustabri {:?} did not finish within 60 s on a fan-in instance of {} arguments", args, g.n);
+            }
+        }
+    }
+}
+
 pub fn run_c18(ctx: &mut Ctx) {
     let q = ctx.tier == Tier::Quick;
     let lim = GenLimits { er_max: 10, ..Default::default() };
@@ -442,6 +486,7 @@ pub fn run_c18(ctx: &mut Ctx) {
         ("dynamic", if q { 12_000 } else { 200_000 }),
         ("cli-adm-rich", if q { 48 } else { 1_500 }),
         ("cli-sparse", if q { 32 } else { 1_500 }),
+        ("cli-fan-in", if q { 8 } else { 100 }),
     ];
     let mut gi = 0u64;
     for (family, count) in schedule {
@@ -459,6 +504,11 @@ pub fn run_c18(ctx: &mut Ctx) {
             }
             if family == "dynamic" {
                 crate::report::guarded(ctx, |ctx| c18_dynamic(ctx, &mut rng, None));
+                continue;
+            }
+            if family == "cli-fan-in" {
+                ctx.case_begin(&json!({"family": family, "i": i}));
+                crate::report::guarded(ctx, |ctx| c18_cli_termination(ctx, &mut rng));
                 continue;
             }
             if family.starts_with("cli-") {
@@ -646,6 +696,39 @@ fn c19_eval<T: HLabel>(ctx: &mut Ctx, case: &StaticCase, built: &Built<T>) {
         }
     } else {
         let mut sat = RefSat::new(&case.abs);
+        // "in particular": grounded arguments together, the arguments they defeat together
+        // (polynomial, so checked at any size)
+        let gr = sat.grounded_set();
+        if gr.len() >= 2 && gr.iter().any(|a| class_of[*a] != class_of[gr[0]]) {
+            let odd = gr.iter().find(|a| class_of[**a] != class_of[gr[0]]).copied();
+            ctx.violation(
+                "C19/grounded-arguments-not-merged-together",
+                json!({"grounded_size": gr.len(), "first_grounded_argument": gr[0], "argument_in_another_class": odd, "n": n}),
+                &if n <= 400 { cj.clone() } else { json!({"family": case.family, "n": n, "note": "graph too large to store; regenerate from the family"}) },
+            );
+            return;
+        }
+        let mut in_gr = vec![false; n];
+        for a in gr.iter() {
+            in_gr[*a] = true;
+        }
+        let mut defeated: Vec<usize> = case.abs.att.iter().filter(|(a, _)| in_gr[*a]).map(|(_, b)| *b).collect();
+        defeated.sort();
+        defeated.dedup();
+        if defeated.len() >= 2 && defeated.iter().any(|a| class_of[*a] != class_of[defeated[0]]) {
+            ctx.violation(
+                "C19/arguments-defeated-by-grounded-not-merged-together",
+                json!({"defeated_size": defeated.len(), "n": n}),
+                &if n <= 400 { cj.clone() } else { json!({"family": case.family, "n": n, "note": "graph too large to store; regenerate from the family"}) },
+            );
+            return;
+        }
+        ctx.maximum("largest_framework", n as u64);
+        if n > 1000 {
+            ctx.count("cases/huge");
+            ctx.nontrivial(gen::case_hash(&Abs::new(2, vec![(0, 1)]), &[&case.family, &n.to_string()]));
+            return; // pairwise SAT separation is not attempted at this size
+        }
         for ms in merged_classes.iter() {
             // consecutive pairs suffice (equivalence is transitive)
             for w in ms.windows(2) {
@@ -683,6 +766,7 @@ pub fn run_c19(ctx: &mut Ctx) {
         ("dup", if q { 30_000 } else { 350_000 }),
         ("big-conn", if q { 4_500 } else { 50_000 }),
         ("big-union", if q { 3_000 } else { 35_000 }),
+        ("huge-chain", if q { 6 } else { 18 }),
     ];
     let mut gi = 0u64;
     for (family, count) in schedule {
@@ -698,7 +782,27 @@ pub fn run_c19(ctx: &mut Ctx) {
             if gi % 64 == 0 {
                 ctx.case_begin(&json!({"family": family, "i": i}));
             }
-            let mut case = if family == "rings" {
+            let mut case = if family == "huge-chain" {
+                // chains (with side branches) of 70-150 thousand arguments: the grounded extension has
+                // tens of thousands of members, reached only after as many propagation steps
+                // boundary values: the grounded extension (every other argument of the chain) has a
+                // size just above a power of two between 2^12 and 2^16
+                let k = [13usize, 15, 16, 17, 14, 17][i as usize % 6];
+                let len = (1usize << k) + 2 * rng.range(3, 40);
+                let mut att: Vec<(usize, usize)> = (0..len - 1).map(|k| (k, k + 1)).collect();
+                let mut n = len;
+                for _ in 0..rng.range(0, 5) {
+                    let k = rng.below(len);
+                    att.push((k, n));
+                    n += 1;
+                }
+                let g = Abs::new(n, att);
+                let mut text = format!("p af {}\n", g.n);
+                for (a, b) in g.att.iter() {
+                    text.push_str(&format!("{} {}\n", a + 1, b + 1));
+                }
+                StaticCase { family: "huge-chain".to_string(), abs: g, pres: crate::present::Pres::Iccma { text } }
+            } else if family == "rings" {
                 // rings and paths of every length 2-9, with a tail or a chord
                 let len = 2 + (i % 8) as usize;
                 let mut g = if i % 3 == 0 { gen::chain(len) } else { gen::ring(len) };
@@ -716,8 +820,10 @@ pub fn run_c19(ctx: &mut Ctx) {
                 gen_case(family, i, ctx.seed, &lim)
             };
             // compact ids only (as produced by the readers)
-            let kind = *rng.pick(&["iccma", "iccma-dup", "apx", "nwl-u", "nwl-s"]);
-            case.pres = crate::present::present(&case.abs, kind, &mut rng);
+            if family != "huge-chain" {
+                let kind = *rng.pick(&["iccma", "iccma-dup", "apx", "nwl-u", "nwl-s"]);
+                case.pres = crate::present::present(&case.abs, kind, &mut rng);
+            }
             ctx.count(&format!("families/{}", family));
             crate::report::guarded(ctx, |ctx| {
                 if case.pres.is_usize() {
